@@ -197,6 +197,18 @@ example :
     printInt, natDigits_lt10, natDigits_ge10, showString, showByte, srcCfg, CelloGen.Text.showEsc, CelloGen.Text.showOpen,
     CelloGen.Text.showClose, List.lookup]
 
+/-- a sequence with a Float (1.5) and numeric specifications is in the contract, its separators meet `fmtOK`, the targets the
+    harness uses have the same types, and the scanner of `scan_from_with` cuts its format `%$ %ld,%lf` as expected -/
+example :
+    let its : List Item := [.shw (.flt 0x3FF8000000000000), .lit [32], .ld 7, .lit [44], .lf 0xC059000000000000]
+    contractOK srcCfg .str its [] = true ∧ fmtOK its = true ∧
+    sameKinds (its.filterMap Item.val?) [.flt 0x401E000000000000, .int 77, .flt 0x401E000000000000] = true ∧
+    segment srcCfg.scanConv (its.flatMap Item.fmt)
+      = [.spec [37, 36], .lit [32], .spec [37, 108, 100], .lit [44], .spec [37, 108, 102]] := by
+  refine ⟨?_, by decide, by decide, by decide⟩
+  simp [contractOK, Item.valid, Item.safe, Item.text, intSafe, fltSafe, litSafe, inInt64, headIs, isDigit, fFinite,
+    printInt, natDigits_lt10, printF, fDecode, roundHalfEven, natDigits_ge10]
+
 /-- the hypotheses of the String theorem are met by a string of quotes, backslashes and control characters -/
 example : ∀ b ∈ [34, 92, 10, 7, 39, 63, 255, 1], b ≠ 0 := by decide
 
